@@ -35,6 +35,8 @@ def main():
                 print(f"{p}: VIOLATION")
                 for k in keys[:8]:
                     print(f"     {k}")
+                if os.environ.get("VERBOSE"):
+                    print("\n".join(l for l in r.stdout.splitlines() if not l.startswith("KNOWN-FINDING")))
             else:
                 pass
     finally:
